@@ -101,9 +101,12 @@ Definition jwe_kind_suitable (alg : string) (encrypt : bool) (cek : N) (k : key)
   else False
   end.
 
+(* the declared use of the recipient key and of the sender key (when one is given) *)
 Definition jwe_suitable (alg : string) (encrypt : bool) (cek : N) (k : key)
            (sender : option key) (e : epk) : Prop :=
-  declared_use_ok "enc" k /\ jwe_kind_suitable alg encrypt cek k sender e.
+  declared_use_ok "enc" k /\
+  (forall s, sender = Some s -> declared_use_ok "enc" s) /\
+  jwe_kind_suitable alg encrypt cek k sender e.
 
 (* ---------- unsafe symmetric secrets ---------- *)
 (* the prefixes of PEM / OpenSSH / ssh-* key text (the table of the text's
@@ -111,5 +114,8 @@ Definition jwe_suitable (alg : string) (encrypt : bool) (cek : N) (k : key)
 Definition unsafe_prefixes : list (list N) :=
   [asc "-----BEGIN "; asc "---- BEGIN "; asc "ssh-rsa "; asc "ssh-dss ";
    asc "ssh-ed25519 "; asc "ecdsa-sha2-"].
+(* leading whitespace (what PEM / OpenSSH readers skip): space, TAB, LF, CR, VT, FF *)
+Definition whitespace (c : N) : Prop :=
+  c = 32 \/ c = 9 \/ c = 10 \/ c = 13 \/ c = 11 \/ c = 12.
 Definition starts_with_unsafe (text : list N) : Prop :=
-  exists p rest, In p unsafe_prefixes /\ text = (p ++ rest)%list.
+  exists ws p rest, Forall whitespace ws /\ In p unsafe_prefixes /\ text = (ws ++ p ++ rest)%list.
